@@ -298,9 +298,12 @@ Record cust_cfg := mkCC { cc_enabled : bool; cc_usepw : bool; cc_mode : Z; cc_cu
 Definition reward_share (e : cust_entry) (n : Z) : coins :=
   match ce_reward e with (d, x) :: _ => [(d, x / n)] | [] => [] end.
 
-(* x/custody/keeper/msg_server.go ApproveTransaction for a caller who has not voted on this hash.
+(* x/custody/keeper/msg_server.go ApproveTransaction for a caller who has not voted on this hash
+   (a repeat returns early without any effect).  Since commit 30f99e5 a caller who is not a
+   listed custodian of the target is refused first; [custody_approve_any] is the body without
+   that check (the code before 30f99e5).
    Result: balances, the entry left in the pool (None = released and deleted). *)
-Definition custody_approve (cfg : cust_cfg) (e : cust_entry) (caller : acct) (b : balances)
+Definition custody_approve_any (cfg : cust_cfg) (e : cust_entry) (caller : acct) (b : balances)
   : outcome (balances * option cust_entry) :=
   let n := Z.of_nat (List.length (cc_custodians cfg)) in
   match ce_reward e with
@@ -315,6 +318,11 @@ Definition custody_approve (cfg : cust_cfg) (e : cust_entry) (caller : acct) (b 
       do b2 <- send b1 (ce_owner e) (ce_to e) (ce_coins e); Ok (b2, None)
     else Ok (b1, Some (mkCE (ce_owner e) (ce_to e) (ce_coins e) (ce_reward e) votes (ce_confirmed e)))
   end.
+
+Definition custody_approve (cfg : cust_cfg) (e : cust_entry) (caller : acct) (b : balances)
+  : outcome (balances * option cust_entry) :=
+  if negb (in_accts caller (cc_custodians cfg)) then Err "sender is not a custodian"
+  else custody_approve_any cfg e caller b.
 
 (* the approvals the property counts: distinct listed custodians *)
 Definition legit_threshold (cfg : cust_cfg) (legit_votes : Z) : bool :=
